@@ -4,6 +4,7 @@ mod common;
 mod e1;
 mod e2;
 mod e2_arp;
+mod e2_dhcp;
 mod e2_dns;
 mod e2_link;
 mod e2_sock;
